@@ -36,6 +36,9 @@ CUSTOM2 = {'FIELD': '#', 'COMPONENT': '.', 'SUBCOMPONENT': ':', 'REPETITION': '+
 CUSTOM3 = {'FIELD': '|', 'COMPONENT': '^', 'SUBCOMPONENT': '&', 'REPETITION': '~', 'ESCAPE': '\\', 'TRUNCATION': '#'}
 
 
+ANY_DELIMITER = set(''.join(''.join(d.values()) for d in (CUSTOM, CUSTOM2, CUSTOM3)))
+
+
 _PRISTINE = {}       # dictionaries of the library taken before any default was touched: name -> (object, copy of its content)
 
 
@@ -366,6 +369,8 @@ def cases(draw, cells, mcells):
         # the value therefore holds no character of any delimiter set
         dt0 = lit.first_leaf_dt(T, v, ref)
         value = draw(st.one_of(st.sampled_from([lit.valid(dt0, 0), lit.valid(dt0, 1)]), st.sampled_from(['abc', 'x1', BIG, '12', '2020'])))
+        if any(c in ANY_DELIMITER for c in value):
+            value = '12' if dt0 in ('NM', 'SI') else 'abc'          # (12.5, 12:30 ... with the set made of . : + # ?)
         case = {'kind': k, 'v': v, 'seg': s, 'fname': fname, 'value': value, 'level': level}
     elif k == 'msh_field':
         v = draw(st.sampled_from(T.VERSIONS))
